@@ -31,6 +31,9 @@ IDS = [
 ID_SCOPE = ("C16 uniqueInScope is judged against every (Cluster)Package of the cluster "
             "(validateUnique drops its label selector and does not restrict the List to the namespace)")
 ID_PANIC = "C16 package controller panics"
+ID_FIT = "C16 at quiescence the ObjectDeployment template is not the render of the current spec"
+ID_REVERT = ("C16 spec reverted to the last unpacked one after a failed pass that already wrote the ObjectDeployment: "
+             "the hash short cut keeps the aborted spec's template")
 
 # ------------------------------------------------------------------ packages
 SCHEMA = """  config:
@@ -729,11 +732,11 @@ def check(run, tier, seed, replay=None):
         terms.append(term)
         idx.append(i)
         infos[i] = info
-    res, logs = vlib.judge_cases("C16", IMPORTS, "judge", terms, 11, shard=100)
+    res, logs = vlib.judge_cases("C16", IMPORTS, "judge2", terms, 14, shard=100)
     for l in logs:
         run.violation("corr:C16/coq-eval", {"correspondence": "coq evaluation failed", "log": l}, False)
     run.cov["evaluations"] = len(terms)
-    npass = nconf = 0
+    npass = nconf = nrev = 0
     stages = {}
     for i, r in zip(idx, res):
         if r is None:
@@ -749,15 +752,28 @@ def check(run, tier, seed, replay=None):
             nconf += any(e.get("err") == "Conflict" for e in p["events"])
         if len(info) >= 2 or any(stage_of(o) != "ok" for _, o, _ in info):
             run.classes.add(sig)
-        agree, mons, unscoped_ok = r[0], r[1:10], r[10]
+        agree, mons, unscoped_ok, fit, fit_unscoped, reverted = r[0], list(r[1:10]), r[10], r[11], r[12], r[13]
         concrete = False
-        if not all(mons) and unscoped_ok:
+        if not fit and agree and reverted and all(mons):
+            # F-C16c and nothing else: the implementation does what the model does, every other clause holds, and the
+            # history shows the pattern (C16Corr.revert_hit): a failed pass wrote the ObjectDeployment without moving
+            # unpackedHash, then the spec was edited to the spec behind the stored hash
+            concrete = True
+            nrev += 1
+            run.violation(ID_REVERT, {"scenario": sc, "impl": obs, "oracles": [o for _, o, _ in info]}, True)
+            fit = True
+        if not (all(mons) and fit) and unscoped_ok and fit_unscoped:
             # every clause holds once uniqueness is judged the way the implementation judges it (over every
             # (Cluster)Package): the verdict is due to the scope of validateUnique's List and nothing else
             concrete = True
             run.violation(ID_SCOPE, {"scenario": sc, "impl": obs, "oracles": [o for _, o, _ in info],
-                                     "failing_clauses": [IDS[k] for k, okk in enumerate(mons) if not okk]}, True)
-            mons = [True] * 9
+                                     "failing_clauses": [IDS[k] for k, okk in enumerate(mons) if not okk] + ([] if fit else [ID_FIT])}, True)
+            mons, fit = [True] * 9, True
+        if not fit and all(mons[k] for k in (2, 3, 4, 6, 8)):
+            # (when another clause about the same pass fails, that clause names the defect)
+            concrete = True
+            run.violation(ID_FIT, {"scenario": sc, "impl": obs, "oracles": [o for _, o, _ in info],
+                                   "reverted_pattern": reverted, "agree": agree}, True)
         for k, okk in enumerate(mons):
             if okk:
                 continue
@@ -772,6 +788,7 @@ def check(run, tier, seed, replay=None):
     run.cov["passes"] = npass
     run.cov["passes_by_intended_stage"] = stages
     run.cov["passes_with_conflict"] = nconf
+    run.cov["histories_with_revert_pattern_and_misfit"] = nrev
     run.cov["rule"] = ("fixed corpus (witness; every image class x every environment; uniqueness counts; every config; "
                        "components; no-op/revert edits; pull failures; pausing; an err/lost API fault at every request number of "
                        "first deployment / update / short cut / pull failure / load failure / unique-constrained deployment; a concurrent "
